@@ -26,7 +26,7 @@ def build_world():
     mix = U.Mixtures.H2O_EtOH
     syn = U.get_mixture("S2")
     one = U.make_curve_set(mix, law="lawA", temps=(333.15,), name="one")
-    two = U.make_curve_set(mix, law="lawA", temps=(313.15, 343.15), name="two")
+    two = U.make_curve_set(mix, law="lawA", temps=(343.15, 313.15), name="two")  # not in ascending temperature order
     molar = U.make_curve_set(mix, law="lawB", temps=(333.15,), basis="molar", name="molar")
     mem = U.make_membrane(mix, 1e-2, 1e-4, t_ref=323.15, ea1=25000.0, ea2=60000.0, extra_temps=(343.15,), curve_sets=[one, two, molar])
     mem_syn = U.make_membrane(syn, 3e-3, 2e-4, t_ref=333.15, ea1=("fit", 31000.0), ea2=("fit", 52000.0), extra_temps=(313.15, 353.15))
@@ -39,15 +39,19 @@ def build_world():
         "syn": U.make_conditions(syn, 0.05, 333.15, 50.0, 0.3, "weight", "vac", "none"),
     }
     meas = {
-        "first": OPT.Measurements.from_diffusion_curves_first(two),
+        # built from a throw-away copy of the set: no library call may touch a world object while the world is being built
+        "first": OPT.Measurements.from_diffusion_curves_first(U.make_curve_set(mix, law="lawA", temps=(343.15, 313.15), name="scratch")),
         "second": OPT.Measurements(data=[OPT.Measurement(x=x, t=333.15, p=U.law_value("lawB", 1, x, 333.15)) for x in (0.1, 0.3, 0.5, 0.7, 0.9)]),
     }
     comps = {"w": U.Composition(p=0.15, type="weight"), "m": U.Composition(p=0.4, type="molar"), "list": [U.Composition(p=x, type="weight") for x in (0.1, 0.5, 0.9)],
-             "pure0": U.Composition(p=0.0, type="molar"), "pure1": U.Composition(p=1.0, type="molar"), "pure1w": U.Composition(p=1.0, type="weight")}
+             "m_same": U.Composition(p=0.15, type="molar"), "pure0": U.Composition(p=0.0, type="molar"), "pure1": U.Composition(p=1.0, type="molar"), "pure1w": U.Composition(p=1.0, type="weight")}
     perms = (U.Permeance(value=2.5e-2), U.Permeance(value=3.0e-5))
     curve = U.DiffusionCurve(mixture=mix, membrane_name="M", feed_temperature=333.15, feed_compositions=[U.Composition(p=x, type="molar") for x in (0.2, 0.6)],
                              partial_fluxes=[(0.031, 0.0017), (0.052, 0.0009)], permeate_temperature=293.15)
-    pm = pv.ideal_non_isothermal_process(conditions=conds["vac"], number_of_steps=3, delta_hours=0.5)
+    # the process model of the world is produced with throw-away objects (same values), for the same reason
+    _mem = U.make_membrane(mix, 1e-2, 1e-4, t_ref=323.15, ea1=25000.0, ea2=60000.0, extra_temps=(343.15,))
+    pm = U.Pervaporation(membrane=_mem, mixture=mix).ideal_non_isothermal_process(
+        conditions=U.make_conditions(mix, 0.05, 333.15, 50.0, 0.15, "weight", "vac", "none"), number_of_steps=3, delta_hours=0.5)
     return {"mix": mix, "syn": syn, "one": one, "two": two, "molar": molar, "mem": mem, "mem_syn": mem_syn, "pv": pv, "pv_syn": pv_syn, "conds": conds,
             "meas": meas, "comps": comps, "perms": perms, "curve": curve, "pm": pm}
 
@@ -73,6 +77,7 @@ OPS = [
     ("solver p NRTL other permeances", lambda w: w["pv"].calculate_partial_fluxes(feed_temperature=333.15, composition=w["comps"]["w"], calculation_type="NRTL",
                                                                                   permeate_pressure=0.5, first_component_permeance=w["perms"][0], second_component_permeance=w["perms"][1])),
     ("solver T NRTL weight", _solver({"permeate_temperature": 293.15}, "NRTL", comp="w")),
+    ("solver T NRTL molar same number", _solver({"permeate_temperature": 293.15}, "NRTL", comp="m_same")),
     ("permeate composition helper", lambda w: w["pv"].calculate_permeate_composition(feed_temperature=333.15, composition=w["comps"]["m"], permeate_pressure=0.5, calculation_type="UNIQUAC")),
     ("separation factor helper", lambda w: w["pv"].calculate_separation_factor(feed_temperature=333.15, composition=w["comps"]["m"], permeate_temperature=293.15)),
     ("ideal curve", lambda w: w["pv"].ideal_diffusion_curve(feed_temperature=333.15, compositions=w["comps"]["list"], permeate_temperature=293.15)),
